@@ -55,7 +55,11 @@ class C17(Check):
         return [tables.gen_sha()]
 
     def nontrivial(self, case, obs):
-        tot = sum((len(l.split()[1]) // 2 if l.startswith(('upd', 'hash')) and l.split()[1] != '-' else 0) for l in case)
+        tot = 0
+        for l in case:
+            t = l.split()
+            if l.startswith(('upd', 'hash')) and t[1] != '-':
+                tot += len(t[1]) // 2 * (int(t[2]) if t[0].startswith('updrep') else 1)
         return tot >= 56 or any(l.startswith('hmac') for l in case) or sum(1 for l in case if l in ('fin', 'reset')) >= 2
 
     def streams(self, tier, rng):
@@ -67,6 +71,30 @@ class C17(Check):
             m = content(rng, n, n % 5)
             cases.append(['upd ' + hexs(m), 'fin', 'upd ' + hexs(m[:7]), 'fin'])
         out.append(Stream('lengths', cases, note='every message length 0..300, hasher reused after finalize'))
+        # long messages: the length field beyond its two low bytes (bit length >= 2^16 from 8192 bytes on), through
+        # model and spec (they run at ~10 KB/s: 64 KiB here, 1 MiB only in the thorough tier)
+        p61 = content(rng, 61, 3)
+        cases = [['upd ' + hexs(content(rng, 8191, 0)), 'fin'],
+                 ['upd ' + hexs(content(rng, 8192, 0)), 'fin', 'upd ' + hexs(b'abc'), 'fin'],
+                 ['updrep %s 128' % hexs(content(rng, 64, 0)), 'upd 80', 'fin'],
+                 ['updrep %s 1075' % hexs(p61), 'fin', 'upd ' + hexs(p61[:3]), 'fin'],            # 65575 bytes = 64 KiB + 39
+                 ['hmac %s %s' % (hexs(content(rng, 20, 0)), hexs(content(rng, 8128, 0))),        # inner hash = 8192 bytes
+                  'hmac %s %s' % (hexs(content(rng, 70, 0)), hexs(content(rng, 9000, 3)))]]
+        if thorough:
+            cases.append(['updrep %s 1024' % hexs(content(rng, 1024, 0)), 'upd ' + hexs(b'\x01\x02\x03\x04\x05'), 'fin'])   # 1 MiB + 5
+        out.append(Stream('long', cases, note='8191 / 8192 / 8193 bytes, 64 KiB + 39 bytes in 61-byte chunks, hmac over >= 8128 bytes'
+                          + ('; 1 MiB + 5 bytes' if thorough else '') + ' - through model and spec'))
+        # longer than the extracted model and spec can follow: op `updrepx` (they answer with wildcards), judged by python
+        # hashlib in judge().  Bit length >= 2^24 from 2 MiB on; >= 2^32 from 2^29 bytes on (thorough: there a 32-bit
+        # `count << 3` wraps), > 2^32 bytes (thorough: there a 32-bit counter wraps).
+        cases = [['updrepx %s 1024' % hexs(content(rng, 1024, 0)), 'upd ' + hexs(b'\x01\x02\x03\x04\x05'), 'fin', 'upd ' + hexs(b'abc'), 'fin'],
+                 ['updrepx %s 32768' % hexs(content(rng, 64, 0)), 'fin'],                          # 2 MiB: bit length exactly 2^24
+                 ['updrepx %s 770' % hexs(content(rng, 4093, 0)), 'upd ' + hexs(content(rng, 100, 0)), 'fin', 'hash ' + hexs(b'abc')]]
+        if thorough:
+            cases.append(['updrepx %s 8194' % hexs(content(rng, 65521, 0)), 'upd ' + hexs(content(rng, 77, 0)), 'fin', 'upd ' + hexs(b'abc'), 'fin'])  # 2^29 + 8218 bytes
+            cases.append(['updrepx %s 4100' % hexs(content(rng, 1048573, 0)), 'fin'])                # 2^32 + 4182228 bytes
+        out.append(Stream('huge', cases, note='1 MiB + 5, 2 MiB, 3 MiB' + (', 2^29 + 8 KiB, 2^32 + 4 MiB' if thorough else '') +
+                          ' bytes streamed through update(); results and byte counter judged by python hashlib (model and spec do not predict these)'))
         # 2-way chunkings: all split points for a set of boundary lengths (all lengths in thorough)
         cases = []
         lens = range(0, 301) if thorough else [0, 1, 54, 55, 56, 57, 63, 64, 65, 111, 119, 120, 127, 128, 129, 183, 184, 191, 192, 193, 255, 256, 300]
@@ -115,6 +143,52 @@ class C17(Check):
             cases.append(ops)
         out.append(Stream('histories', cases))
         return out
+
+    def run_impl(self, cases, tag='impl'):
+        # a case that streams up to 2^32 bytes through the sanitizer build needs more than the usual 10 s watchdog
+        self.per_case_timeout = 900 if any(l.startswith('updrepx') for c in cases for l in c) else 10
+        return Check.run_impl(self, cases, tag)
+
+    def judge(self, cases, impl_obs, spec_obs):
+        """The spec's expected observations; for cases with `updrepx` (which the extracted spec does not follow)
+        python hashlib/hmac replays the history instead: result of every op and the byte counter after it."""
+        fails = []
+        for (i, k, reason) in Check.judge(self, cases, impl_obs, spec_obs):
+            # constant 80-character head per kind of call: vf groups reports by it (one defect = one report)
+            op = cases[i][k].split(' ')[0] if k < len(cases[i]) else 'crash'
+            fails.append((i, k, ('%-80s' % ('call %s: the result differs from the FIPS 180-4 / RFC 2104 reference;' % op))[:80] + ' ' + reason))
+        for i, (c, o) in enumerate(zip(cases, impl_obs)):
+            if not any(l.startswith('updrepx') for l in c):
+                continue
+            h, n = hashlib.sha256(), 0
+            for k, l in enumerate(c):
+                t = l.split()
+                arg = lambda j: b'' if t[j] == '-' else bytes.fromhex(t[j])
+                want = '-'
+                if t[0] == 'upd':
+                    h.update(arg(1))
+                    n += len(arg(1))
+                elif t[0] in ('updrep', 'updrepx'):
+                    d = arg(1)
+                    for _ in range(int(t[2])):
+                        h.update(d)
+                    n += len(d) * int(t[2])
+                elif t[0] == 'fin':
+                    want = h.hexdigest()
+                    h, n = hashlib.sha256(), 0
+                elif t[0] == 'reset':
+                    h, n = hashlib.sha256(), 0
+                elif t[0] == 'hash':
+                    want = hashlib.sha256(arg(1)).hexdigest()
+                elif t[0] == 'hmac':
+                    want = pyhmac.new(arg(1), arg(2), hashlib.sha256).hexdigest()
+                got = o[k].split(' ') if k < len(o) else ['<nothing>']
+                gotn = got[2] if len(got) > 2 else '<nothing>'
+                if got[0] != want or gotn != str(n):
+                    fails.append((i, k, '%-80s op %d `%s`: expected result %s and byte counter %d, implementation gives %s and %s' % (
+                        'long message (python hashlib oracle): result or byte counter differs;', k, l[:40], want, n, got[0], gotn)))
+                    break
+        return fails
 
     def extra_checks(self, tier, rng, ctx):
         """Independent search oracle (never a proof): python hashlib/hmac against the implementation."""
